@@ -272,10 +272,8 @@ def check_flags(model, rep, sx):
             rep.cannot('C09.flags', f'{cls}.{flag}', f'too many atoms: {len(atoms)}', mem.loc)
         elif bad:
             a, why = bad[0]
-            falses = [str(k[1]) for k, v in a.items() if not v]
-            rep.violation('C09.flags', f'{cls}.{flag}', f'truth table differs from the specification: {why} when '
-                          f'{[str(k[1]) for k, v in a.items() if v]} hold and {falses} do not', mem.loc,
-                          oracle=expr)
+            rep.violation('C09.flags', f'{cls}.{flag}', f'truth table differs from the specification: {why} for the '
+                          f'assignment {[(str(k[1])[:60], v) for k, v in a.items()]}', mem.loc, oracle=expr)
         else:
             rep.holds('C09.flags', f'{cls}.{flag}', f'exhaustive truth table over {len(atoms)} atom(s) equals `{expr[:80]}`',
                       mem.loc)
